@@ -257,6 +257,9 @@ func (c *Check) Finish() {
 	if len(vs) > 0 {
 		cov["violation_signatures"] = vs
 	}
+	if c.Assumptions == nil {
+		c.Assumptions = []string{}
+	}
 	ev := map[string]any{
 		"property_id": c.ID,
 		"tier":        c.Tier,
